@@ -94,7 +94,17 @@ func (g *c13gen) expr(ty string, depth int) string {
 		if leaf {
 			return g.pick([]string{"42", "X", "C", "V.A", "PV.A", "Arr[1]", "Sl[2]", `Mp["a"]`, "*PI", "Ts[1].A", "IV.(T).A", "conf.Port", "wconf.Port", "0x1F", "(*PV).A"}, "intleaf")
 		}
-		switch g.pick([]string{"leaf", "add", "mul", "neg", "conv", "paren", "index", "sel", "shift", "assertsel"}, "int") {
+		switch g.pick([]string{"leaf", "add", "mul", "neg", "conv", "paren", "index", "sel", "shift", "assertsel", "bitops", "litsel", "tsliceidx", "tmapidx", "cmplx"}, "int") {
+		case "bitops":
+			return "((" + g.expr("int", depth+1) + " &^ 1) | 2)"
+		case "litsel":
+			return "T{A: " + g.expr("int", depth+1) + "}.A"
+		case "tsliceidx":
+			return g.expr("tslice", depth+1) + "[0].A"
+		case "tmapidx":
+			return g.expr("tmap", depth+1) + "[\"k\"].A"
+		case "cmplx":
+			return "(" + g.expr("int", depth+1) + " + int(2.5*2))"
 		case "add":
 			return "(" + g.expr("int", depth+1) + " + " + g.expr("int", depth+1) + ")"
 		case "mul":
@@ -192,6 +202,19 @@ func (g *c13gen) expr(ty string, depth int) string {
 		return g.pick([]string{"Ch", "(chan int)(nil)"}, "chan")
 	case "pair":
 		return "Pair{East: " + g.expr("string", depth+1) + ", West: " + g.expr("string", depth+1) + "}"
+	case "tslice":
+		if leaf && !force {
+			return g.pick([]string{"Ts", "Ts[:1]"}, "tsliceleaf")
+		}
+		return "[]T{{A: " + g.expr("int", depth+1) + "}, {A: 2, B: \"two\"}}"
+	case "tmap":
+		return "map[string]T{\"k\": {A: " + g.expr("int", depth+1) + "}, \"z\": {}}"
+	case "pslice":
+		return g.pick([]string{"&Sl", "&[]int{1, 2}"}, "pslice")
+	case "pptr":
+		return "&PV"
+	case "arrslice":
+		return "[2][]int{{" + g.expr("int", depth+1) + "}, Sl}"
 	case "J":
 		return "JV"
 	case "empty":
@@ -235,6 +258,16 @@ func c13Type(s *Spec, ty string, home int) *Type {
 		return Chan(0, Basic("int"))
 	case "pair":
 		return Named(find("Pair"))
+	case "tslice":
+		return Slice(Named(find("T")))
+	case "tmap":
+		return Map(Named(find("T")))
+	case "pslice":
+		return Ptr(Slice(Basic("int")))
+	case "pptr":
+		return Ptr(Ptr(Named(find("T"))))
+	case "arrslice":
+		return Array(2, Slice(Basic("int")))
 	case "J":
 		return Named(find("J"))
 	case "empty":
@@ -243,7 +276,7 @@ func c13Type(s *Spec, ty string, home int) *Type {
 	return Basic("int")
 }
 
-var c13TypeNames = []string{"int", "int", "string", "bool", "T", "T", "*T", "slice", "map", "array", "N", "func", "chan", "pair"}
+var c13TypeNames = []string{"int", "int", "int", "string", "bool", "T", "T", "*T", "slice", "map", "array", "N", "func", "chan", "pair", "tslice", "tmap", "pslice", "pptr", "arrslice"}
 
 func genC13() *rapid.Generator[*Spec] {
 	return rapid.Custom(func(t *rapid.T) *Spec {
